@@ -144,6 +144,11 @@ theorem pointOpsCorrect (c : Affine.Crv) (C : Ctx p a b) (M : Matches c C) :
     · obtain ⟨x, y, _, ey, _, _, y0, y1, _⟩ := GroupInterface.xy hJ
       exact ⟨y, ey, y0, by show y < c.p; rw [M.cp]; exact y1⟩
     · exact absurd hA.1 (by simp [OrdInv])
+  isInfObj A hA hne := by
+    rcases result_cases (valid_rep hA) with ⟨_, h0⟩ | ⟨J, rfl, _, _⟩ | ⟨Af, rfl, _, _⟩
+    · exact absurd h0 hne
+    · rfl
+    · rfl
   fromAffine A hA := by
     cases A with
     | infinity => exact ⟨hA, rfl⟩
